@@ -17,7 +17,7 @@
      every entry of step j: dated tmin + j, its source u is a node with sq j u = I, its target v a
      neighbour of u (in edge direction: v in G.neighbors(u)) with sq j v = S and sq (j+1) v = I,
      and every node that turns S -> I at step j has EXACTLY ONE entry dated tmin + j. *)
-From EoNV Require Import Prelude Samp Graph Discrete DiscreteP SampP DiscreteChk DiscreteRun DiscreteRunS DiscreteTop DiscreteC04 DiscreteC05 DiscreteHist DiscreteC09.
+From EoNV Require Import Prelude Samp Graph Discrete DiscreteP SampP DiscreteChk DiscreteRun DiscreteRunS DiscreteTop DiscreteC04 DiscreteC05 DiscreteHist DiscreteC09 DiscretePerc.
 From EoNV Require Gillespie GillespieP.
 From Coq Require Import Permutation.
 
@@ -59,6 +59,29 @@ Theorem C09_basic_discrete_SIS_checker_accepts_every_run : forall g R ord i0 tmi
   exec (basic_discrete_SIS_R g R ord (Some i0) None tmin tmax true fuel) ds [] = (Ok out, tr) ->
   exists fd, so_full (o_sim out) = Some fd /\ dtx_okb false g i0 tmin (fd_hist fd) (fd_trans fd) = true.
 Proof. exact dsis_tx_accepted. Qed.
+
+(* percolation_based_discrete_SIR: the transmissions are in lock-step with a run of discrete_SIR
+   on the percolated graph H = (nodes of G, kept edges), kept a subset of the edges of G; they pass
+   the checker for H, and -- G undirected (symmetric adjacency) -- for G itself *)
+Theorem C09_percolation_based_discrete_SIR_transmissions_in_lockstep : forall g R ord i0 r0o tmin tmax fuel ds out tr,
+  wf_inputb g i0 (opt_list r0o) = true -> perm_oracle ord -> pick_sound R -> whole_steps tmin tmax ->
+  exec (percolation_based_discrete_SIR_R g R ord (Some i0) r0o None tmin tmax true fuel) ds [] = (Ok out, tr) ->
+  exists kept fd sq K pre, so_full (o_sim out) = Some fd /\ (forall e, In e kept -> In e (gedges g)) /\
+    tx_lockstep (perc_graph g kept) kSIR true tmin i0 (opt_list r0o) (so_rows (o_sim out)) (fd_hist fd) (fd_trans fd) sq K pre /\
+    dtx_okb true (perc_graph g kept) i0 tmin (fd_hist fd) (fd_trans fd) = true /\
+    dinit_okb true g i0 (opt_list r0o) tmin (so_rows (o_sim out)) (Some (fd_hist fd)) = true.
+Proof. exact psir_tx_lockstep. Qed.
+
+Theorem C09_percolation_based_discrete_SIR_checker_accepts_every_run : forall g R ord i0 r0o tmin tmax fuel ds out tr,
+  wf_inputb g i0 (opt_list r0o) = true -> sym_graphb g = true -> perm_oracle ord -> pick_sound R -> whole_steps tmin tmax ->
+  exec (percolation_based_discrete_SIR_R g R ord (Some i0) r0o None tmin tmax true fuel) ds [] = (Ok out, tr) ->
+  exists fd, so_full (o_sim out) = Some fd /\ dtx_okb true g i0 tmin (fd_hist fd) (fd_trans fd) = true /\
+    dinit_okb true g i0 (opt_list r0o) tmin (so_rows (o_sim out)) (Some (fd_hist fd)) = true.
+Proof. exact psir_tx_accepted. Qed.
+
+Theorem C09_percolated_edges_are_edges_of_G : forall g kept, sym_graphb g = true -> (forall e, In e kept -> In e (gedges g)) ->
+  forall u v, In v (gadj (perc_graph g kept) u) -> In v (gadj g u).
+Proof. exact perc_edges_sub. Qed.
 
 (* ... and acceptance means, in terms of the outputs alone ([status_in hs u t] = the status of the
    last entry of u's history at or before t): the list is time-ordered; source-less entries only
@@ -129,6 +152,9 @@ Print Assumptions C09_basic_discrete_SIS_transmissions_in_lockstep.
 Print Assumptions C09_discrete_SIR_sources_lead_back_to_I0.
 Print Assumptions C09_discrete_SIR_checker_accepts_every_run.
 Print Assumptions C09_basic_discrete_SIS_checker_accepts_every_run.
+Print Assumptions C09_percolation_based_discrete_SIR_transmissions_in_lockstep.
+Print Assumptions C09_percolation_based_discrete_SIR_checker_accepts_every_run.
+Print Assumptions C09_percolated_edges_are_edges_of_G.
 Print Assumptions C09_discrete_checker_sound.
 Print Assumptions C09_disc_hypotheses_satisfiable.
 Print Assumptions C09_disc_example.
